@@ -90,6 +90,8 @@ class Period(ObjectWithFields):
         if use_base_urls:
             self.baseURL = urllib.parse.urljoin(flask.request.host_url, base_url)
 
+        # '$' delimits the identifiers of a URL template, a literal one is '$$'
+        template_base_url = base_url.replace('$', '$$')
         for adp in self.adaptationSets:
             if mode == 'odvod':
                 for rep in adp.representations:
@@ -98,7 +100,9 @@ class Period(ObjectWithFields):
                         rep.baseURL = f"{base_url}{rep.baseURL}"
             if not use_base_urls:
                 if mode != 'odvod':
-                    adp.initURL = f"{base_url}{adp.initURL}"
-                adp.mediaURL = f"{base_url}{adp.mediaURL}"
+                    adp.initURL = f"{template_base_url}{adp.initURL}"
+                    adp.mediaURL = f"{template_base_url}{adp.mediaURL}"
+                else:
+                    adp.mediaURL = f"{base_url}{adp.mediaURL}"
             if timing:
                 adp.set_dash_timing(timing)
